@@ -121,6 +121,12 @@ var c12Paths = []c12Path{
 	// a geostationary-satellite RTT: initial window / min RTT is below the 64 KB/s pacing floor
 	// (added after the seeded change C12-4: the floor dropped from the first-sample branch)
 	{Name: "2Mbit-800ms-q1bdp", Cap: 250000, RTT: 800 * time.Millisecond, Queue: 200000, AckEvery: 2, QuicSize: 1280, Seed: 1280},
+	// a bandwidth-delay product of ~2000 datagrams, 60 initial windows: STARTUP (doubling per round)
+	// fills it in 6 round trips, a sender that has left STARTUP too early (+25 % per 8-round gain
+	// cycle) needs more than 100, so "settles far below capacity" shows for every profile; loss-free
+	// part only (added after the independently seeded change C12-8: STARTUP ended before the first
+	// bandwidth sample on a sender installed mid-connection)
+	{Name: "1Gbit-20ms-q1bdp", Cap: 125000000, RTT: 20 * time.Millisecond, Queue: 2500000, AckEvery: 2, QuicSize: 1280, Seed: 1280},
 }
 
 // long fat path on which the real maximum window (20000 datagrams) is reachable
@@ -690,10 +696,78 @@ func (s *c12Sim) pingpong(g c12Ping) {
 	}
 }
 
+// c12Earlier: the sender is INSTALLED IN THE MIDDLE OF A LIVE CONNECTION, which is how hysteria
+// always installs it (SetCongestionControl from the authentication handler, after the handshake):
+// K*J packets that the previous controller sent are still in flight. quic-go reports their
+// acknowledgements to the new controller (K ack events of J packets each, 1 ms apart, bytes in
+// flight including them): packet numbers it never saw in OnPacketSent. Busy=false: the application
+// has nothing to send until they are all acknowledged (a client that authenticates and then waits
+// for its first request), so the controller has sent nothing when the events arrive; Busy=true: it
+// sends from the moment it is installed. Must be the first event of a trace. Events of the loss-free
+// part only (codes >= c12NEv+len(c12Pings)). Added after the independently seeded change C12-8
+// (0/0 growth ratio: a round without any bandwidth estimate counted as a round without growth, so
+// STARTUP ended before the first sample on a sender installed mid-connection).
+type c12Earlier struct {
+	K    int
+	J    int64
+	Busy bool
+}
+
+func (g c12Earlier) name() string {
+	w := "idle"
+	if g.Busy {
+		w = "sending"
+	}
+	return fmt.Sprintf("installed-mid-connection:%dx%dpkt-of-previous-controller-acked-while-%s", g.K, g.J, w)
+}
+
+var c12Earliers = func() (l []c12Earlier) {
+	for _, busy := range []bool{false, true} {
+		for _, k := range []int{1, 2, 3, 4, 5, 6} { // numStartupRtts is 2 / 3 / 4
+			for _, j := range []int64{1, 2} {
+				l = append(l, c12Earlier{k, j, busy})
+			}
+		}
+	}
+	return l
+}()
+
+func (s *c12Sim) earlier(g c12Earlier) {
+	if s.nextPN != 0 || s.sentPkts != 0 || s.events != 0 {
+		s.infra = "simulator: installed-mid-connection must be the first event of a trace"
+		return
+	}
+	n := int64(g.K) * g.J
+	s.rtt.UpdateRTT(s.path.RTT, 0) // the handshake has measured the path
+	for i := int64(0); i < n; i++ {
+		ackAt := s.now + (i/g.J+1)*int64(time.Millisecond)
+		s.seq++
+		// the connection, not the controller, sent it: no OnPacketSent
+		p := c12Pkt{pn: i, seq: s.seq, size: s.qSize, sent: ackAt - int64(s.path.RTT), ackAt: ackAt, gap: i%g.J == g.J-1} // gap: acknowledged at once
+		s.inflight += p.size
+		s.flight = append(s.flight, p)
+		s.rx = append(s.rx, p)
+		s.lastElicit = max(s.lastElicit, p.sent)
+	}
+	s.nextPN = n
+	s.hasData = g.Busy
+	s.untilPN = n - 1
+	s.run(s.now + int64(60*time.Second))
+	s.untilPN = -1
+	if s.clause == "" && s.infra == "" && (s.largestAcked < n-1 || s.events < int64(g.K)) {
+		s.infra = fmt.Sprintf("simulator: the %d packets of the previous controller were not acknowledged in %d events (largest acked %d, events %d)", n, g.K, s.largestAcked, s.events)
+	}
+}
+
 // macro executes one macro-event of the alphabet.
 func (s *c12Sim) macro(ev int) {
 	R := s.path.unit()
 	s.hasData, s.drop3, s.evSent, s.stopEmpty, s.sendCap = true, false, 0, false, -1
+	if ev >= c12NEv+len(c12Pings) {
+		s.earlier(c12Earliers[ev-c12NEv-len(c12Pings)])
+		s.hasData = true
+		return
+	}
 	if ev >= c12NEv {
 		s.pingpong(c12Pings[ev-c12NEv])
 		s.hasData = true
@@ -837,6 +911,10 @@ func c12PathOf(i int) *c12Path {
 func c12SeqNames(seq []int) string {
 	n := make([]string, len(seq))
 	for i, e := range seq {
+		if e >= c12NEv+len(c12Pings) {
+			n[i] = c12Earliers[e-c12NEv-len(c12Pings)].name()
+			continue
+		}
 		if e >= c12NEv {
 			n[i] = c12Pings[e-c12NEv].name()
 			continue
